@@ -14,20 +14,20 @@ MODULES = ["mirror.rs", "kjson.rs", "gen.rs", "print.rs", "checks.rs", "main.rs"
 
 # property -> [(group, [obligation prefixes that belong to the property])]
 GROUPS = {
-    "C01": [("e2e", ["e2e.members"]), ("text_filter", ["text_filter.api_agree"]), ("text_arith", ["text_arith.api_agree"]), ("name_lookup", ["process_key.member"]), ("descendant", ["process_descendant.preorder"]),
+    "C01": [("e2e", ["e2e.members", "e2e.multiplicity"]), ("text_filter", ["text_filter.api_agree"]), ("text_arith", ["text_arith.api_agree"]), ("name_lookup", ["process_key.member"]), ("descendant", ["process_descendant.preorder"]),
             ("selectors", ["process_selectors.members"])],
-    "C02": [("e2e", ["e2e.order"]), ("descendant", ["process_descendant.preorder"]), ("selectors", ["process_selectors.order", "process_selectors.members"])],
+    "C02": [("e2e", ["e2e.order", "e2e.multiplicity"]), ("descendant", ["process_descendant.preorder"]), ("selectors", ["process_selectors.order", "process_selectors.members"])],
     "C03": [("e2e", ["e2e.path"]), ("pointer_text", ["Pointer::key.text", "Pointer::idx.text"]), ("name_lookup", ["process_key.path"]),
             ("descendant", ["process_descendant.path"]), ("requery", ["path.requery", "path.injective"])],
-    "C04": [("cmp_struct", ["eq.structural", "lt.order"])],
-    "C05": [("e2e_filter", ["e2e_filter.members", "e2e_filter.order"]), ("text_filter", ["text_filter.members", "text_filter.order"])],
+    "C04": [("cmp_struct", ["eq.structural", "lt.order"]), ("e2e_cmp", ["e2e_cmp.members", "e2e_cmp.multiplicity"])],
+    "C05": [("e2e_filter", ["e2e_filter.members", "e2e_filter.multiplicity", "e2e_filter.order"]), ("text_filter", ["text_filter.members", "text_filter.order"])],
     "C08": [("e2e", ["e2e.no_panic", "e2e.ok"]), ("arith", ["process_index.no_panic", "process_slice.no_panic"]), ("regex", ["regex.no_panic"]),
             ("descendant", ["process_descendant.no_panic"]), ("name_lookup", ["process_key.no_panic"]), ("text_arith", ["text_arith.no_panic"]),
             ("custom", ["custom.no_panic", "custom.ok"])],
-    "C10": [("regex", ["regex.match", "regex.search", "regex.no_panic"]), ("e2e_fn", ["e2e_fn.members", "e2e_fn.no_panic"])],
+    "C10": [("regex", ["regex.match", "regex.search", "regex.no_panic"]), ("e2e_fn", ["e2e_fn.members", "e2e_fn.multiplicity", "e2e_fn.no_panic"])],
     "C11": [("arith", ["process_index.select", "process_slice.select", "process_index.no_panic", "process_slice.no_panic"]),
             ("text_arith", ["text_arith.members", "text_arith.order", "text_arith.no_panic"])],
-    "C15": [("e2e", ["e2e.view_independent", "e2e.members", "e2e.order"]), ("text_filter", ["text_filter.api_agree"]), ("cmp_struct", ["eq.structural", "lt.order"])],
+    "C15": [("e2e", ["e2e.view_independent", "e2e.members", "e2e.multiplicity", "e2e.order"]), ("text_filter", ["text_filter.api_agree"]), ("cmp_struct", ["eq.structural", "lt.order"])],
 }
 # Verus unit -> bounded groups that can produce a failing input for it
 CEX_GROUPS = {
